@@ -141,7 +141,10 @@ pub fn run(ctx: &mut Ctx) {
                 ["c03.redecode", m, h] => redecode_case(ctx, &ls, *m == "c", &unhex(h), false),
                 ["c03.build", m, label, detail] => {
                     let (n, tl): (usize, usize) = { let mut it = detail.split(','); (it.next().and_then(|x| x.trim_start_matches("n=").parse().ok()).unwrap_or(0), it.next().and_then(|x| x.trim_start_matches("text=").parse().ok()).unwrap_or(0)) };
-                    for (lab, p, e) in builders(n, &"a".repeat(tl)) { if lab == *label { wellformed_case(ctx, &ls, *m == "c", &lab, &p, e, detail); } }
+                    // a text given by its code points (`cps=`) is rebuilt exactly; otherwise `text=<len>` means that many 'a'
+                    let text = detail.split(',').find_map(|x| x.strip_prefix("cps=")).map(|c| crate::text::from_cps(&c.replace(';', ","))).unwrap_or_else(|| "a".repeat(tl));
+                    let base = label.split('+').next().unwrap_or(label);
+                    for (lab, p, e) in builders(n, &text) { if lab == base { wellformed_case(ctx, &ls, *m == "c", label, &p, e, detail); } }
                 },
                 _ => {},
             }
@@ -165,6 +168,16 @@ pub fn run(ctx: &mut Ctx) {
             if tl % 5 == 0 {
                 let t: String = "ě".repeat(tl / 2) + &"a".repeat(tl % 3);
                 for (lab, p, e) in builders(0, &t) { if e.is_none() { wellformed_case(ctx, &ls, compressed, &format!("{}+mb", lab), &p, e, &format!("n=0,text={}", tl)); } }
+            }
+        }
+        // texts whose byte just before / at / after each field width is a caret (a colour code, an escape or a codepage
+        // marker cut in half by the width): whatever the writer does about it, the frame stays well formed
+        for w in [6usize, 8, 16, 24, 32, 64, 96, 128, 240] {
+            for k in w.saturating_sub(3)..=(w + 2) {
+                for tail in ["^1 and some more text", "^^", "^", "^Lx", "\u{11b} more"] {
+                    let t: String = "a".repeat(k) + tail;
+                    for (lab, p, e) in builders(0, &t) { if e.is_none() { wellformed_case(ctx, &ls, compressed, &format!("{}+caret", lab), &p, e, &format!("n=0,cps={}", crate::text::cps(&t).replace(',', ";"))); } }
+                }
             }
         }
         ctx.exhaustive_domains.push(format!("element counts 0..=257 for the seven counted kinds; text lengths 0..={} for the eleven text-bearing builders, mode {}", if quick { 270 } else { 500 }, mode_tok(compressed)));
